@@ -22,14 +22,22 @@ What is assumed about a history (`HistOkFrom`): a module file installed by *some
 does not collide in (mtime second, size) with the bytecode-cache entry of the module path - CPython
 validates cached bytecode by exactly that key, and no code in mako can repair a collision it did not
 cause.  Mako's own writes cannot collide any more: the entry is removed after every (re)write.
-The two defects recorded in the first round (F4 short write, F-C15-2 stale bytecode after a same-second
-rewrite) were repaired in /repo; their guards and counterexamples are gone, the obligations
-`writeLoops_on` / `dropsBytecode_on` break if a repair is undone.
+OPEN: nothing - no recorded finding of C15 is left (`known_findings.json` lists the two repaired ones under
+"fixed"); undoing a repair breaks `writeLoops_on` / `dropsBytecode_on` / `dropsBytecodeHook_on`.
+`concurrent_constructs_need_stable_source_counterexample` documents a limit of the protocol that lies outside the
+property's quantifier (see there); it is not a finding.
 -/
 namespace MakoModel.C15
 open MakoModel.ModFile MakoModel.Generated.ModFile
 
 /-! ## (re)written exactly when due, otherwise reused unchanged -/
+
+/-- Regenerated fact behind the `Nat` time stamps of the model: `_compile_from_file` reads the source's mtime as
+`os.stat(filename)[stat.ST_MTIME]` - whole seconds, like the module's.  (Reading it as the float `st_mtime`
+makes a module written in the second of the source's mtime count as older: it is then rewritten on every
+construction of that second - "reused unchanged" fails; the harness stamps sources T.25 and modules T.31 to
+see exactly that.) -/
+theorem mtimes_whole_seconds : mtimesWholeSeconds = true := by decide
 
 /-- For every history and the world it reaches: a construct without faults writes the module iff it is
 missing, older than the source, carries another magic number **or was generated from another template
@@ -118,7 +126,7 @@ theorem after_rewrite_current (w0 : World) (h : List HOp) (p : Plan) (hw0 : Inv 
 example : (construct defaultWriter (runH World.init exHist) {}).res = .served ⟨4, magicNumber, true, 4, 1, 0⟩ := by
   decide
 
-/-- the history of the repaired defect F-C15-2 with bytecode caching on - construct, delete the module,
+/-- the same-second history with bytecode caching on - construct, delete the module,
 modify the source with an equal mtime, construct within the same second, same size - satisfies the
 hypotheses, and the current source is served -/
 example : HistOkFrom { World.init with pycOn := true } [.construct {}, .deleteMod, .modifySrc 0] :=
@@ -244,12 +252,16 @@ example :
     (st.procs 2).phase = .done none ∧
     (st.fs .mod).map (·.content.src) = some 3 := by decide
 
-/-- Why `stable` is needed (a limit of the protocol, outside the property's "same source"): the source is
-modified (mtime 10) while process 0 - which has already read version 0 - is still writing; process 1
-publishes version 1; process 0 renames last.  Everybody has finished, the path holds a *complete* module
-of the **older** version whose mtime is not older than the source's: the staleness test of a later construct
-does not fire. -/
-theorem concurrent_constructs_need_stable_source :
+/-- Why `stable` is needed - a limit of the protocol, **not a finding**: the source is modified (mtime 10) while
+process 0, which has already read version 0, is still writing; process 1 publishes version 1; process 0 renames
+last.  Everybody has finished, the path holds a *complete* module of the **older** version whose mtime is not
+older than the source's, so the staleness test of a later construct does not fire.
+Outside the property's quantifier: C15 speaks of histories of {modify, delete, replace, construct} - sequential
+operations - times 2-8 processes constructing the same Template "for the same source" concurrently; a source
+modification *concurrent with a running construct* is in neither factor (and no staleness test on mtimes could
+exclude it).  Hence no finding id and no oracle stream; `concurrent_constructs_converge` is the statement for
+the property's case. -/
+theorem concurrent_constructs_need_stable_source_counterexample :
     let st := runC (CState.initial FS.empty 0 5 10 (fun _ => []) (fun _ => []))
       ([.proc 0, .proc 0, .proc 0, .modify 10] ++ (List.replicate 10 (.proc 1)) ++ (List.replicate 7 (.proc 0)))
     (st.procs 0).phase = .done (some ⟨0, magicNumber, true, 0, 1, 0⟩) ∧
